@@ -465,3 +465,106 @@ Proof.
   apply (C14_reachable_generate_is_dataflow _ _ m ["d"] [] out log H Hg Hm); [constructor | intros k [] | exact Hgen | exact Hv | now left].
 Qed.
 Print Assumptions C14_reachable_example_applied.
+
+(** ---- C14 -> C02: a seeded run does not depend on the insertion order, at the level of the API ---- *)
+From Elfi Require Import Proofs.C03_ModelOk Proofs.C02_Insertion Proofs.C14_C02_Link.
+
+(** Two guarded scripts whose live models [m1], [m2] are the same model with nodes, edges and
+    observed data inserted in another order: [generate] gives the same values and the same call
+    log on both, or fails on both. *)
+Theorem C14_scripts_same_model_same_generate :
+  forall ops1 ops2 ms1 ms2 m1 m2 outs W,
+    run [empty_net] ops1 = Ok ms1 -> script_ok ops1 = true -> In m1 ms1 ->
+    run [empty_net] ops2 = Ok ms2 -> script_ok ops2 = true -> In m2 ms2 ->
+    same_model m1 m2 -> params_distinct m1 ->
+    NoDup (map fst W) -> (forall k, In k (map fst W) -> ~ In k inames) -> outputs_wf m1 outs ->
+    (exists r, generate m1 outs W = Ok r /\ generate m2 outs W = Ok r)
+    \/ ((exists e, generate m1 outs W = Err e) /\ (exists e, generate m2 outs W = Err e)).
+Proof. exact scripts_same_model_same_generate. Qed.
+Print Assumptions C14_scripts_same_model_same_generate.
+
+(** the second model need not be script-reachable: any reordering of a reachable model will do *)
+Theorem C14_reachable_same_model_same_generate :
+  forall ops ms m1 m2 outs W,
+    run [empty_net] ops = Ok ms -> script_ok ops = true -> In m1 ms ->
+    same_model m1 m2 -> params_distinct m1 ->
+    NoDup (map fst W) -> (forall k, In k (map fst W) -> ~ In k inames) -> outputs_wf m1 outs ->
+    same_result (generate m1 outs W) (generate m2 outs W).
+Proof. exact reachable_same_model_same_generate. Qed.
+Print Assumptions C14_reachable_same_model_same_generate.
+
+Theorem C14_scripts_same_model_same_generate_ok :
+  forall ops1 ops2 ms1 ms2 m1 m2 outs W r,
+    run [empty_net] ops1 = Ok ms1 -> script_ok ops1 = true -> In m1 ms1 ->
+    run [empty_net] ops2 = Ok ms2 -> script_ok ops2 = true -> In m2 ms2 ->
+    same_model m1 m2 -> params_distinct m1 ->
+    NoDup (map fst W) -> (forall k, In k (map fst W) -> ~ In k inames) -> outputs_wf m1 outs ->
+    (generate m1 outs W = Ok r <-> generate m2 outs W = Ok r).
+Proof. exact scripts_same_model_same_generate_ok. Qed.
+Print Assumptions C14_scripts_same_model_same_generate_ok.
+
+(** [params_distinct] is not an invariant of [script_ok] scripts: [Operation(f, t, t, u)];
+    [remove_node] of parent 0 followed by [add_edge(v, o)]; the explicit [add_edge(u, o, 0)]. *)
+Theorem C14_params_distinct_refuted_repeated_parent :
+  pd_broken [ EAddNode 0 "t" (st_prior "t") [] None; EAddNode 0 "u" (st_prior "u") [] None;
+              EAddNode 0 "o" (st_op "o") ["t"; "t"; "u"] None ].
+Proof. exact params_distinct_refuted_repeated_parent. Qed.
+Print Assumptions C14_params_distinct_refuted_repeated_parent.
+
+Theorem C14_params_distinct_refuted_remove_then_add :
+  pd_broken [ EAddNode 0 "t" (st_prior "t") [] None; EAddNode 0 "u" (st_prior "u") [] None;
+              EAddNode 0 "v" (st_prior "v") [] None;
+              EAddNode 0 "o" (st_op "o") ["t"; "u"] None;
+              ERemove 0 "t"; EAddEdge 0 "v" "o" None ].
+Proof. exact params_distinct_refuted_remove_then_add. Qed.
+Print Assumptions C14_params_distinct_refuted_remove_then_add.
+
+Theorem C14_params_distinct_refuted_explicit_edge :
+  pd_broken [ EAddNode 0 "t" (st_prior "t") [] None; EAddNode 0 "u" (st_prior "u") [] None;
+              EAddNode 0 "o" (st_op "o") ["t"] None; EAddEdge 0 "u" "o" (Some (PInt 0)) ].
+Proof. exact params_distinct_refuted_explicit_edge. Qed.
+Print Assumptions C14_params_distinct_refuted_explicit_edge.
+
+(** Two different scripts for one 5-node model (prior, simulator with data, two summaries,
+    discrepancy): the node lists and the edge lists differ as lists, the models are the same up to
+    order, and the theorem (and a direct computation) gives equal [generate] results. *)
+Example C14_two_scripts_one_model :
+  script_ok ex_ops_a = true /\ script_ok ex_ops_b = true
+  /\ run [empty_net] ex_ops_a = Ok [ex_m_a] /\ run [empty_net] ex_ops_b = Ok [ex_m_b]
+  /\ same_model ex_m_a ex_m_b
+  /\ map fst (s_nodes ex_m_a) <> map fst (s_nodes ex_m_b)
+  /\ s_edges ex_m_a <> s_edges ex_m_b
+  /\ params_distinct ex_m_a
+  /\ (forall outs W, NoDup (map fst W) -> (forall k, In k (map fst W) -> ~ In k inames) -> outputs_wf ex_m_a outs ->
+        same_result (generate ex_m_a outs W) (generate ex_m_b outs W))
+  /\ (exists v log, log <> [] /\ generate ex_m_a ["d"] [] = Ok ([("d", v)], log) /\ generate ex_m_b ["d"] [] = Ok ([("d", v)], log)).
+Proof. exact two_scripts_one_model. Qed.
+Print Assumptions C14_two_scripts_one_model.
+
+(** [params_distinct] is an invariant under the additional guard [pd_guard] (Proofs/C14_C02_Link.v):
+    [EAddEdge] parameters not held by another parent of the child, no [become] of a node with a
+    self-loop, and -- checked on the step's result, hence "partial" -- distinct in-edge parameters
+    of a newly created node. *)
+Theorem C14_params_distinct_reachable_partial :
+  forall ops ms, run [empty_net] ops = Ok ms -> script_pd_ok ops = true -> Forall params_distinct ms.
+Proof. exact reachable_params_distinct_partial. Qed.
+Print Assumptions C14_params_distinct_reachable_partial.
+
+Theorem C14_step_keeps_params_distinct :
+  forall m o m', pd_guard m o = true -> step_model m o = Ok m' -> PD (s_edges m) -> PD (s_edges m').
+Proof. exact step_model_PD. Qed.
+Print Assumptions C14_step_keeps_params_distinct.
+
+Theorem C14_scripts_same_model_same_generate_guarded :
+  forall ops1 ops2 ms1 ms2 m1 m2 outs W,
+    run [empty_net] ops1 = Ok ms1 -> script_ok ops1 = true -> script_pd_ok ops1 = true -> In m1 ms1 ->
+    run [empty_net] ops2 = Ok ms2 -> script_ok ops2 = true -> In m2 ms2 ->
+    same_model m1 m2 ->
+    NoDup (map fst W) -> (forall k, In k (map fst W) -> ~ In k inames) -> outputs_wf m1 outs ->
+    same_result (generate m1 outs W) (generate m2 outs W).
+Proof. exact scripts_same_model_same_generate_guarded. Qed.
+Print Assumptions C14_scripts_same_model_same_generate_guarded.
+
+Example C14_two_scripts_pd_ok : script_pd_ok ex_ops_a = true /\ script_pd_ok ex_ops_b = true.
+Proof. exact two_scripts_pd_ok. Qed.
+Print Assumptions C14_two_scripts_pd_ok.
